@@ -9,7 +9,7 @@ string (a broken tie, handled by the caller as in DESIGN.md section 5).
 import os
 import re
 
-REPO = "/repo"
+REPO = os.environ.get("VERIF_REPO", "/repo")
 ROOT = os.path.dirname(os.path.dirname(os.path.abspath(__file__)))
 GEN = os.path.join(ROOT, "coq", "Gen")
 
